@@ -192,7 +192,24 @@ def check_level_loops(ctx):
                   "the loop over `%s` runs from %s to %s (expected %s .. %d): %s" % (var, inits, lasts, first, bound - 1, why))
 
 
+def check_finalized_before_install(ctx):
+    """Every version that becomes current carries a computed compaction score:
+    ldb_versions_finalize runs before ldb_versions_append_version.  A version
+    installed with the initial score (-1) never asks for compaction: level 0
+    can fill up to the stop trigger with no background work scheduled."""
+    for fname in ("ldb_versions_recover", "ldb_versions_apply"):
+        f = ctx.fn(fname, VS)
+        ap = [(b, i, e) for (b, i, e) in f.events("call") if is_call(e, "ldb_versions_append_version")]
+        ctx.require(len(ap) == 1, "%s: installation of the new version not found" % fname)
+        v = argkey(ap[0][2], 1)
+        always_before(ctx, "T1-finalized-before-install", fname, f,
+                      lambda e, v=v: is_call(e, "ldb_versions_finalize") and argkey(e, 1) == v,
+                      lambda e: is_call(e, "ldb_versions_append_version"),
+                      "the version installed by %s was finalized (compaction score computed)" % fname)
+
+
 def check(ctx):
+    check_finalized_before_install(ctx)
     from . import c04 as _c04
     _c04.check_write(ctx)          # sequence numbers are not reused: internal keys stay unique within and across files
     check_level_loops(ctx)
